@@ -323,7 +323,8 @@ struct Runner {
 			if (ncases < 1) ncases = 1;
 		}
 		const uint64_t salt = mix64(hash_str(t.name.c_str()) ^ mix64(seed));
-		const int BM_BITS = 28;
+		int BM_BITS = 16;  // distinctness bitmap sized to the run: >= 16 x cases, at most 2^28 bits
+		while (BM_BITS < 28 && (1ULL << BM_BITS) < ncases * 16) ++BM_BITS;
 		std::vector<std::atomic<uint64_t>>* bitmap = nullptr;
 		if (!t.domain) bitmap = new std::vector<std::atomic<uint64_t>>((1ULL << BM_BITS) / 64);
 		std::atomic<uint64_t> next(0);
@@ -507,7 +508,7 @@ static inline int pbt_main(int argc, char** argv, const char* property_id, void*
 			js += "], \"case\": \"" + jesc(kv.second.desc) + "\", \"detail\": \"" + jesc(kv.second.detail) + "\"}";
 		}
 		js += "]}";
-		fprintf(stderr, "[%s] %-44s evals=%-12" PRIu64 " nontrivial=%-12" PRIu64 " failkeys=%zu  %.1fs\n", property_id, t.name.c_str(), r.st.evals, r.st.nontrivial, r.fails.size(), r.wall);
+		if (!getenv("PBT_QUIET") || !r.fails.empty()) fprintf(stderr, "[%s] %-44s evals=%-12" PRIu64 " nontrivial=%-12" PRIu64 " failkeys=%zu  %.1fs\n", property_id, t.name.c_str(), r.st.evals, r.st.nontrivial, r.fails.size(), r.wall);
 	}
 	double wall = std::chrono::duration<double>(std::chrono::steady_clock::now() - t0).count();
 	char b[64]; snprintf(b, sizeof b, "%.3f", wall);
